@@ -11,6 +11,7 @@ THEOREMS = [("C12", ["C12_skip", "C12_skip_as_read", "C12_struct_lacking_fields"
             ("DeDispatchTie", ["tie_de_any", "tie_de_ignored", "tie_de_forward", "de_any_is_generated", "de_ignored_is_generated", "de_is_generated"])]
 PROOF_FILES = ["proofs/DeProofs.v", "proofs/DS1.v", "proofs/DS2.v", "proofs/DS3.v", "proofs/DS4.v", "proofs/DS5.v", "props/C12.v", "proofs/DS6.v", "proofs/DeDispatchTie.v"]
 TRUSTED_BASE = [
+    "lib/directed.py seq_stats (Python) counts the items of every array / map of the generated value to choose max_seq_size; that this configuration reads the whole value is then CHECKED on the model and on the crate (full typed target and dynamic target), not assumed",
     "dispatch tie: translators/gen_dispatch.py (+ rustmatch.py) reads the arms of every deserialize_* method of DatumDeserializer into gen/GenDeDispatch.v; proofs/DeDispatchTie.v proves that model/De.v's de is the interpretation of those regenerated tables (the meaning of each action symbol, act_sem, is hand-written there)",
     "Coq 8.16.1 kernel; no axioms (Print Assumptions: closed)",
     "spec/{AvroValue,Encoding,Denote,Wf}.v from the Avro specification: every legal encoding (any block split, negative counts with byte sizes) as encode_e of an evalue",
@@ -159,6 +160,31 @@ def run(ctx):
                 continue
             for w, e, t, exp, kind in wrap.ignoring_forms(rng, nodes, v, vg, G.rand_int(rng, -2**63, 2**63 - 1)):
                 cases.append((w, e, t, exp, "const-size-items-" + kind))
+    # sequences of WIDE items (strings of 8..40 bytes, doubles, records, nested arrays: many more bytes than items) written in
+    # one or several byte-size prefixed blocks, ignored in every way: for the small max_seq_size configurations below
+    # (a limit on ITEMS must not be applied to what a skipped block measures in BYTES)
+    N = G.Node
+    for _ in range(60 if ctx["tier"] == "quick" else 2000):
+        kind = rng.choice(["string", "string", "double", "record", "array", "bytes"])
+        if kind == "record":
+            inner = [N("record", name="ns.Wide", fields=[("a", 1), ("b", 2)]), N("double"), N("string")]
+        elif kind == "array":
+            inner = [N("array", items=1), N("long")]
+        else:
+            inner = [N(kind)]
+        ivg = G.ValueGen(rng, inner)
+        def wide():
+            if kind in ("string", "bytes"):
+                return "(%s %s)" % (kind, C.hx(bytes(0x61 + rng.randrange(26) for _ in range(rng.randint(8, 40)))))
+            return ivg.gen(0)
+        items = [wide() for _ in range(rng.randint(1, 20))]
+        is_map = rng.random() < 0.35
+        nodes = [N("map", values=1) if is_map else N("array", items=1)] + wrap.shift(inner, 1)
+        if is_map:
+            items = ["(%s %s)" % (C.hx("key%d" % j), x) for j, x in enumerate(items)]
+        v = "(%s%s)" % ("map" if is_map else "array", sized_blocks(rng, items))
+        for w, e, t, exp, k2 in wrap.ignoring_forms(rng, nodes, v, G.ValueGen(rng, nodes), G.rand_int(rng, -2**63, 2**63 - 1)):
+            cases.append((w, e, t, exp, "wide-items-sized-blocks-" + k2))
     sp = codec.spec_batch([(w, e) for w, e, *_ in cases])
     lines = []
     for i, ((w, e, t, exp, kind), s) in enumerate(zip(cases, sp)):
@@ -198,7 +224,24 @@ def run(ctx):
         cases.append((w, e, t, exp, "min-depth-" + kind.replace("const-size-items-", "")))
         dl_full.append("%s (cfg 1000000000 %d)" % (full[i], hi[i]))
         dl_full.append("%s (cfg 1000000000 %d)" % (full_any[i], hi[i]))
+    # ... and with DeserializerConfig::max_seq_size set to the least limit with which READING the whole value succeeds: the item
+    # count of its longest array / map (lib/directed.py seq_stats; confirmed by reading under the full typed target and the
+    # dynamic target, on the model and on the crate): the target that ignores parts must succeed there too, with the same
+    # values -- whatever the block layout of what is skipped (a skipped block's byte size is not an item count)
+    import directed as D
+    for i, ((w, e, t, exp, kind), s) in enumerate(zip(base_cases, sp)):
+        longest, total, nseq = D.seq_stats(e)
+        if nseq == 0 or longest == 0:
+            continue
+        mode = rng.choice(["slice", "slice", "(chunks 1)", "(chunks %d)" % rng.randint(2, 40)])
+        lines.append("de %s %s %s %s (cfg %d 64)" % (s["schema"], t, s["enc"], mode, longest))
+        cases.append((w, e, t, exp, "min-max_seq_size-" + kind.replace("const-size-items-", "").replace("wide-items-sized-blocks-", "wide-")))
+        dl_full.append("%s (cfg %d 64)" % (full[i], longest))
+        dl_full.append("%s (cfg %d 64)" % (full_any[i], longest))
     impl, model = codec.both(lines)
+    for line, rm in zip(dl_full, C.run_parallel(C.AVROMODEL, dl_full)):
+        if not rm.startswith("(ok"):
+            raise RuntimeError("the model does not read the whole value under the configuration chosen as minimal: " + line[:300])
     violations, diffs, samples, distinct = [], [], [], set()
     from collections import Counter
     dist = Counter()
@@ -228,5 +271,7 @@ def run(ctx):
                     "constant (enums of 1..200 symbols with indices around 63|64, flat and nested records of null / boolean / float / double / "
                     "fixed / duration / enum fields) alone, in arrays and maps, positive-count and sized blocks, ignored in every way and followed "
                     "by a field that is read; EVERY case again with allowed_depth = the least budget with which the model reads the whole value "
-                    "under the full typed target and under the dynamic target (bisection): the ignoring target must succeed with the same values; slice and chunked readers; model vs crate",
+                    "under the full typed target and under the dynamic target (bisection): the ignoring target must succeed with the same values; and again with max_seq_size = the item count of the value's longest array / map (the least limit with "
+                    "which the whole value is read, confirmed on model and crate), incl. directed arrays / maps of wide items (strings, doubles, "
+                    "records, nested arrays) in byte-size prefixed blocks whose byte total exceeds that limit; slice and chunked readers; model vs crate",
             "samples": samples, "violations": violations, "model_diffs": diffs, "distribution": dict(dist)}
